@@ -149,7 +149,11 @@ PROPS = {
         "rule": ("pairs of cases drawn from one SplitMix64 state: a deterministic machine M (probability-1 transitions, constant distributions, counters, limits, "
                  "budgets, no SIGNAL target) at a random position among 0-3 arbitrary neighbours (which cannot signal it if M reacts to Signal), and M alone on the "
                  "projected history (events addressed to M renamed to 0, to others to an unknown id); framework fractions unset. Both runs are executed on the real "
-                 "Framework and on the extracted Coq model (all output lines equal), and M's action stream must be identical in both runs. Non-trivial = M returned an action."),
+                 "Framework and on the extracted Coq model (all output lines equal), and M's action stream must be identical in both runs. Non-trivial = M returned an action. "
+                 "In addition, per case, one pair with an ARBITRARY non-signalling machine (probabilistic transitions, sampled timeouts/limits/counter values) next to "
+                 "arbitrary non-signalling neighbours is run on the real Framework only: a tagging random source notes the words drawn while the framework steps the "
+                 "machine (verif log), the solo run replays exactly those words, and the actions and the number of words consumed must agree (theorem C10_solo_any); "
+                 "probabilistic_pairs_run_drew_acted in the input distribution counts them."),
     },
     "C01": {
         "sub": "fw",
